@@ -304,12 +304,20 @@ pub struct GenOpts {
     pub create: bool,
     pub beneficiary_roles: bool,
     pub shared_callers: bool,
+    /// dependency-chain profile: mostly `mix` calls on 4 pre-populated slots, half of them with a
+    /// data-dependent write location (write sets that change between incarnations)
+    pub chain: bool,
 }
 
 /// A conflict-heavy block: few slots, data-dependent slot choice, shared callers (nonce chains).
 pub fn gen_block(rng: &mut Rng, n_txs: usize, opts: GenOpts) -> (World, BlockSpec) {
     let n_eoa = if opts.shared_callers { (n_txs / 2).max(1) } else { n_txs.max(1) };
-    let world = make_world(n_eoa + 1, rng);
+    let mut world = make_world(n_eoa + 1, rng);
+    if opts.chain {
+        for s in 0..4u64 {
+            world.db.storage.insert((world.mix, U256::from(s)), U256::from(rng.below(4)));
+        }
+    }
     let specs = [SpecId::SHANGHAI, SpecId::CANCUN, SpecId::PRAGUE, SpecId::LONDON, SpecId::BERLIN];
     let spec = if rng.chance(2, 3) { SpecId::CANCUN } else { *rng.pick(&specs) };
     let basefee = if spec >= SpecId::LONDON { rng.below(3) } else { 0 };
@@ -330,12 +338,12 @@ pub fn gen_block(rng: &mut Rng, n_txs: usize, opts: GenOpts) -> (World, BlockSpe
         let nonce = *nonces.get(&caller).unwrap_or(&0);
         let gas_price = basefee as u128 + rng.below(3) as u128;
         let mut tx = TxEnv { caller, gas_limit: 300_000, gas_price, nonce, ..Default::default() };
-        let kind = rng.below(100);
+        let kind = if opts.chain && rng.chance(5, 6) { 0 } else { rng.below(100) };
         let mut valid = true;
         if kind < 45 {
             let a = rng.below(4);
             let b = rng.below(4);
-            let ind = rng.chance(1, 3) as u64;
+            let ind = if opts.chain { rng.chance(1, 2) as u64 } else { rng.chance(1, 3) as u64 };
             let mut data = Vec::new();
             data.extend_from_slice(&word(a));
             data.extend_from_slice(&word(b));
